@@ -491,5 +491,5 @@ func TestC20(t *testing.T) {
 			t.Fatalf("%s", fl.Msg)
 		}
 	}
-	ev.Rapid(t, rec, "histories", rec.Scale(400, 15000), genCase, func(c Case) *ev.Failure { return runRecorded("histories", c) })
+	ev.Rapid(t, rec, "histories", rec.Scale(400, 150000), genCase, func(c Case) *ev.Failure { return runRecorded("histories", c) })
 }
